@@ -675,6 +675,18 @@ PHASED = {
     "W2-slow": (_S2, [[[["mv", "d1", "d9"]], [["mkdir", "d1"]], [["write", "d1/s1.txt", "S"]]], [[["mv", "d1", "d8"]]]]),
     "two-phases-plain": (_S1, [[[["write", "d1/sub/s2.txt", "T"]]], [[["rmtree", "d1/sub"]], [["mkdir", "d1/sub"]],
                                                                       [["write", "d1/sub/s2.txt", "U"]]]]),
+    # a prepared tree is moved to the place of a watched directory that was removed a phase earlier: the
+    # rescan has to descend (pending entries at every level) and queue the files of every level
+    "tree-moved-in-next-phase": (_S1, [[[["rmtree", "d1"]]],
+                                       [[["mkdir", "n0"]], [["mkdir", "n0/sub"]], [["write", "n0/sub/s2.txt", "S"]],
+                                        [["mv", "n0", "d1"]]],
+                                       [[["write", "d1/sub/s2.txt", "V"]]]]),
+    # a declared static file that is a glob match: deleted, rebuild, created again
+    "match-recreated-next-phase": ({"dirs": ["d1"], "static": {"d1/x.dat": "x", "a.txt": "A"},
+                                    "globs": [{"step": "./plan.py", "pattern": "d1/*.dat"}]},
+                                   [[[["rm", "d1/x.dat"]]], [[["write", "d1/x.dat", "x"]]]]),
+    # recorded as updated, then the directory above it moves away (same phase) and a later phase
+    "updated-then-parent-moved": (_S2, [[[["write", "d1/s1.txt", "T"]], [["mv", "d1", "d9"]]], [[["mv", "d9", "d1"]]]]),
 }
 PHASED_EXPECT = {"W1-stale-subdirectory-watch": SIG_W1, "W2-late-IGNORED": SIG_W2}
 
@@ -748,6 +760,7 @@ WS_NAMED = {
     "W2-slow": [[["mv", "d2", "d9"]], [["mkdir", "d2"]], [["mv", "d2", "d8"]]],
     "rmdir-mkdir": [[["rmdir", "d2"]], [["mkdir", "d2"]], [["rmdir", "d1/sub"], ["mkdir", "d1/sub"]]],
     "back-and-forth": [[["mv", "d1", "d9"], ["mv", "d9", "d1"]], [["mv", "d1/sub", "d2/sub"]]],
+    "tree-moved-in": [[["rmdir", "d1/sub"]], [["rmdir", "d1"]], [["mkdir", "d9"]], [["mkdir", "d9/sub"]], [["mv", "d9", "d1"]]],
 }
 
 
